@@ -49,6 +49,7 @@ def run_check(prop: str, tier: str, root: str, known=None, evidence_path=None,
     from sa import hygiene
     hygiene.run(ctx, prop)
     hygiene.run_options(ctx, prop)
+    hygiene.run_tuple_protocol(ctx, prop)
     extra = {}
     if tier == 'thorough' and hasattr(mod, 'run_thorough'):
         mod.run_thorough(ctx)
